@@ -101,6 +101,16 @@ Theorem C13_cache_check_sound : forall max ttl mr ops,
 Proof. exact Proof.C13.check_sound. Qed.
 Print Assumptions C13_cache_check_sound.
 
+(* two calls started concurrently (lock convoy): for the order in which they ran the pair oracle
+   holds — prefix property plus balance and budget of the final state *)
+Theorem C13_pair_check_sound : forall max ttl mr pre a b,
+  let s := fst (run true (init max ttl mr) pre) in
+  let s1 := fst (step true s a) in
+  C13_pair_check max pre (snd (run true (init max ttl mr) pre)) a b
+    (snd (step true s a)) (snd (step true s1 b)) (snap (fst (step true s1 b))) = true.
+Proof. exact Proof.C13.pair_check_sound. Qed.
+Print Assumptions C13_pair_check_sound.
+
 (* the code as pinned: reservation = backend Stat size, entry = len(data). A 100-byte entry is
    stored in a 10-byte cache ... *)
 Theorem C13_size_mismatch_refuted :
@@ -183,6 +193,13 @@ Theorem C13_lru_check_sound : forall size ttl ops,
 Proof. exact Proof.C13_lru.lru_check_sound. Qed.
 Print Assumptions C13_lru_check_sound.
 
+Theorem C13_lru_pair_check_sound : forall size ttl pre a b at_,
+  let c := fst (lrun (linit size ttl) pre) in
+  let c2 := fst (lstep (fst (lstep c a)) b) in
+  C13_lru_pair_check size ttl pre (snd (lrun (linit size ttl) pre)) a b at_ (lsnap c2 at_) = true.
+Proof. exact Proof.C13_lru.lru_pair_check_sound. Qed.
+Print Assumptions C13_lru_pair_check_sound.
+
 (* the defaults used by linit are the literals of utils/cache/config.go (regenerated every run) *)
 Theorem C13_lru_defaults_tied :
   lru_default_size = K.Gen.C13_consts.lru_default_size_src
@@ -236,4 +253,15 @@ Example C13_nonvacuous_lru_expiry :
   let c := fst (lrun (linit 2 100) [(LAdd 0 0%Z, 0%Z); (LAdd 1 60%Z, 60%Z)]) in
   snd (lstep c (LHas 0 100%Z)) = OBool true /\ snd (lstep c (LHas 0 101%Z)) = OBool false /\
   map l_key (l_ents (fst (lstep c (LAdd 2 101%Z)))) = [1; 2].
+Proof. vm_compute. repeat split; reflexivity. Qed.
+
+(* lock convoy: two Removes of one entry that BOTH subtract its size (a Remove that is not one
+   atomic region) are neither linearisable nor balanced: 900 reserved + nothing stored, 800 accounted *)
+Example C13_pair_oracle_flags_double_decrement :
+  let pre := [A (PReserve 1 0 900); A (PReserve 2 1 100); A (PEnd 2 (WData 100) 0%Z)] in
+  let obs := snd (run true (init 1000 0 0) pre) in
+  pair_agrees 1000 pre obs (A (PRaw (CRemove 1))) (A (PRaw (CRemove 1))) OUnit OUnit (900, []) = true /\
+  C13_pair_check 1000 pre obs (A (PRaw (CRemove 1))) (A (PRaw (CRemove 1))) OUnit OUnit (900, []) = true /\
+  pair_agrees 1000 pre obs (A (PRaw (CRemove 1))) (A (PRaw (CRemove 1))) OUnit OUnit (800, []) = false /\
+  C13_pair_check 1000 pre obs (A (PRaw (CRemove 1))) (A (PRaw (CRemove 1))) OUnit OUnit (800, []) = false.
 Proof. vm_compute. repeat split; reflexivity. Qed.
